@@ -74,7 +74,7 @@ theorem quat_glue_steps_pinned : GenD.quat_glue_steps =
    "if any(p0 > eps) or any(q0 > eps):\n    raise ValueError('You must center the fragment first', p0, q0)",
    "R = np.dot(P.T, Q)",
    "F = np.zeros((4, 4))",
-   "l, U = np.linalg.eig(F)",
+   "l, U = np.linalg.eigh(F)",
    "indmax = np.argmax(l)",
    "q0, q1, q2, q3 = U[:, indmax]",
    "U = np.zeros((3, 3))",
